@@ -94,6 +94,13 @@ func run(f func(int) int) int   { return f(1) }
 func mk() (int, string, error)  { return 0, "", nil }
 
 var g T
+
+type K struct{ a, b int }
+
+var m2 map[K]int
+var mm map[K]map[string][]int
+
+func pk(k K, ks ...K) bool { return k.a < len(ks) }
 `
 
 type gen struct {
@@ -122,7 +129,8 @@ func (g *gen) fresh(p string) string { g.nvar++; return fmt.Sprintf("%s%d", p, g
 
 func (g *gen) ie(d int) string { // int expression
 	if d <= 0 {
-		return g.pick("a", "r", "7", "0x1F", "1_000", "len(xs)", "t.a", "g.a", "t.e.x", "cap(xs)", "0b101", "0o17", "int(Last)")
+		return g.pick("a", "r", "7", "0x1F", "1_000", "len(xs)", "t.a", "g.a", "t.e.x", "cap(xs)", "0b101", "0o17", "int(Last)",
+			"0X1F", "0B101", "0O17", "0X_1f", "0b_1", "0O_7", "0XA_B", "017", "0_17", "0xDEAD_beef", "m2[K{1, 2}]", "'a'*0 + 1", "'\x41' - '\u0041' + 2")
 	}
 	switch g.r.Intn(26) {
 	case 0:
@@ -194,7 +202,7 @@ func (g *gen) idx(d int) string {
 
 func (g *gen) fe(d int) string {
 	if d <= 0 {
-		return g.pick("1.5", "2e3", ".25", "sh.Area()", "t.W", "float64(a)", "0x1p-2", "1_0.5e+1")
+		return g.pick("1.5", "2e3", ".25", "sh.Area()", "t.W", "float64(a)", "0x1p-2", "1_0.5e+1", "0X1P-2", "0X_1FFFP-16", "1E3", "0x.8p1", "0X1.8P+0_1", "1.", "0e0", "real(0XAi)", "imag(1_0i)")
 	}
 	switch g.r.Intn(5) {
 	case 0:
@@ -211,7 +219,7 @@ func (g *gen) fe(d int) string {
 
 func (g *gen) se(d int) string {
 	if d <= 0 {
-		return g.pick("b", `"lit"`, "`raw`", `"a\tb\n"`, `"é\u00e9\x41"`, `""`)
+		return g.pick("b", `"lit"`, "`raw`", `"a\tb\n"`, `"é\u00e9\x41"`, `""`, `"\101\U0001F600\xff\a\v"`, "`a\\n\`", `"\""`, `"'"`)
 	}
 	switch g.r.Intn(6) {
 	case 0:
@@ -271,7 +279,10 @@ func (g *gen) stmt(loop string) string {
 	if g.depth > 3 {
 		return g.simple(d)
 	}
-	k := g.r.Intn(40)
+	k := g.r.Intn(41)
+	if k == 40 {
+		k = 39
+	}
 	if k < 18 {
 		return g.simple(d)
 	}
@@ -369,6 +380,34 @@ func (g *gen) stmt(loop string) string {
 	case 36:
 		g.hit("block")
 		return g.block(n, loop)
+	case 39:
+		g.hit("header_exprlev")
+		v := g.fresh("v")
+		return g.pick(
+			"if m2[K{1, 2}] == "+g.ie(1)+" "+g.block(1, loop),
+			"if m2[K{a: "+g.ie(1)+"}] > 0 && pk(K{}, K{1, 2}) "+g.block(1, loop),
+			"switch m2[K{}] {\ncase 1:\n}",
+			"switch "+v+" := m2[K{1, 2}]; {\ncase "+v+" > 0:\n}",
+			"for "+v+" := range mm[K{1, 2}] {\n_ = "+v+"\n}",
+			"for "+v+" := range mm[K{}][\"k\"] {\n_ = "+v+"\n}",
+			"for m2[K{b: 1}] < "+g.ie(1)+" {\nbreak\n}",
+			"for "+v+" := m2[K{}]; "+v+" < len([]int{1, 2}); "+v+" += m2[K{1, 1}] {\n}",
+			"if (K{1, 2}) == (K{}) "+g.block(1, loop),
+			"if pk(K{1, 2}) "+g.block(1, loop),
+			"if "+v+" := (K{"+g.ie(1)+", 2}); "+v+".a > 0 "+g.block(1, loop),
+			"for _, "+v+" := range []K{{1, 2}, {}} {\n_ = "+v+"\n}",
+			"for _, "+v+" := range [...]func() int{func() int { return 1 }} {\n_ = "+v+"()\n}",
+			"if func() bool { return m2[K{}] > 0 }() "+g.block(1, loop),
+			"switch func() K { return K{} }().a {\ncase 0:\n}",
+			"if "+v+", ok := any.(K); ok && "+v+" == (K{}) "+g.block(1, loop),
+			"if xs[1:2:3][0] > xs[:2][0] "+g.block(1, loop),
+			"for xs[a&1:][0] < len(xs[:a&1:2]) {\nbreak\n}",
+			"switch "+v+" := any.(type) {\ncase K:\n_ = m2["+v+"]\ncase map[K]int:\n_ = "+v+"[K{}]\n}",
+			"if len(map[K]int{{1, 2}: 3}) > 0 "+g.block(1, loop),
+			"if _, ok := (map[K]int{})[K{}]; !ok "+g.block(1, loop),
+			"for range ([]int{1}) {\n}",
+			"if struct{ x int }{1}.x > 0 "+g.block(1, loop)+" else if (struct{}{}) == struct{}{} {\n}",
+		)
 	case 37:
 		if loop != "" {
 			g.hit("break_continue")
